@@ -54,8 +54,12 @@ let parse (t : string list) : op option =
   | ["rel"; i] -> Some (ORelease (nat_s i))
   | ["bp"; p] -> Some (OBytesPrefix (bs p))
   | _ -> None
-(* "nosnap": the code as first found (a read transaction reads whatever is committed at each read) *)
-let step_fn = if Array.length Sys.argv > 1 && Sys.argv.(1) = "nosnap" then step_unrepaired else step
+(* "nosnap": the code as first found (a read transaction reads whatever is committed at each read);
+   "noclamp": the batchIterator as first found (Seek / Reset below the range's start leave the range) *)
+let step_fn =
+  if Array.length Sys.argv > 1 && Sys.argv.(1) = "nosnap" then step_unrepaired
+  else if Array.length Sys.argv > 1 && Sys.argv.(1) = "noclamp" then step_seek_unrepaired
+  else step
 let () =
   let st = ref init_state in
   let out = Buffer.create (1 lsl 20) in
